@@ -231,7 +231,12 @@ pub fn run(rep: &mut Report, thorough: bool) {
         if thorough || si % 2 == 0 {
             for c in cuts_of(s.len(), 1) {
                 scen.push((si, c.clone(), None, 1000, 1));
-                scen.push((si, c, None, 1000, 2));
+                scen.push((si, c.clone(), None, 1000, 2));
+                // header fields a stream does not consist of: a stale urgent-pointer field (URG
+                // clear) equal to the stream length / to 5, and URG set with pointer 3
+                scen.push((si, c.clone(), None, 1000, 3));
+                scen.push((si, c.clone(), None, 1000, 4));
+                scen.push((si, c, None, 1000, 5));
             }
         }
     }
@@ -249,6 +254,18 @@ pub fn run(rep: &mut Report, thorough: bool) {
                         fr.resize(60, 0);
                     } else if *pad == 2 {
                         fr.extend_from_slice(&[0xff; 7]);
+                    } else if *pad >= 3 {
+                        // flow `f` is IPv4 without options: the TCP header starts at byte 34
+                        let u: u16 = match *pad {
+                            3 => ss[*si].1.len() as u16,
+                            4 => 5,
+                            _ => 3,
+                        };
+                        fr[34 + 18..34 + 20].copy_from_slice(&u.to_be_bytes());
+                        if *pad == 5 {
+                            fr[34 + 13] |= 0x20;
+                        }
+                        refresh_checksums(&mut fr);
                     }
                     Cmd::Frame(fr)
                 })
@@ -315,7 +332,7 @@ pub fn run(rep: &mut Report, thorough: bool) {
         &mut rep.sink,
     );
     rep.transitions += scen.len() as u64;
-    rep.stage("compositions", "streams x (every 1-cut [x zero-length insertion], every 2-cut of the selected streams, every 1-cut again in frames zero-padded to 60 bytes / followed by a 7-byte trailer, every 1-cut again with sequence numbers wrapping past 2^32 inside the request)", scen.len() as u64, t0);
+    rep.stage("compositions", "streams x (every 1-cut [x zero-length insertion], every 2-cut of the selected streams, every 1-cut again in frames zero-padded to 60 bytes / followed by a 7-byte trailer / with a stale urgent-pointer field (stream length, 5) / with URG and pointer 3, every 1-cut again with sequence numbers wrapping past 2^32 inside the request)", scen.len() as u64, t0);
     parser_bfs(rep, &cfg, &f, ack, &cookies, thorough);
 }
 
